@@ -252,7 +252,7 @@ pub fn ids() -> &'static Ids {
 }
 
 pub fn case_of(inp: &Input) -> Case {
-    let io = IoCfg { read_chunks: inp.read_chunks.clone(), write_chunks: vec![], pend_first: false };
+    let io = IoCfg { read_chunks: inp.read_chunks.clone(), write_chunks: vec![], pend_first: false, read_cuts: vec![] };
     match inp.state {
         St::AfterConnack => {
             let mut steps = prelude();
